@@ -169,7 +169,8 @@ Fixpoint shape_t (t : tree A) : shape :=
 with shape_f (f : forest A) : list (string * shape) :=
   match f with FNil => [] | FCons k t r => (k, shape_t t) :: shape_f r end.
 
-(* named_apply: accepts out= and does not forward it (C20-a) *)
+(* named_apply: accepts out= and does not forward it.  DEFECT C20-a.  When repaired: [front ... out names]
+   (and harness/c20.py::model_line forwards out for front == "named_apply") *)
 Definition named_apply_front (con propagate : bool) (self : tree A) (others : list (tree A)) (out : option (tree A))
            (names : option dnames) : res (option (tree A)) :=
   front A o fn con propagate self others None names.
